@@ -235,7 +235,7 @@ func runCheck(e *Engine, args []string, tier string, timeout int, verif string) 
 				nOK++
 				perSolver[ob.Solver]++
 				slow = append(slow, slowOb{ob.Name, ob.Solver, ob.Secs})
-				if len(samples) < 6 && (ob.Kind == "post" || ob.Kind == "pre" || ob.Kind == "modifies" || ob.Kind == "inv-pres") {
+				if len(samples) < 6 && (ob.Kind == "post" || ob.Kind == "pre" || ob.Kind == "modifies" || ob.Kind == "inv-pres" || ob.Kind == "atcall" || ob.Kind == "atreturn" || ob.Kind == "reject" || ob.Kind == "exit" || ob.Kind == "reads" || ob.Kind == "fresh" || ob.Kind == "globalinv") {
 					samples = append(samples, map[string]any{"obligation": ob.Name, "kind": ob.Kind, "at": ob.Pos, "clause": ob.Detail, "goal": trunc(ob.Query, 400), "solver": ob.Solver})
 				}
 			} else {
@@ -364,7 +364,7 @@ func runCheck(e *Engine, args []string, tier string, timeout int, verif string) 
 		"by_kind":            kindCount,
 		"by_backend":         perSolver,
 		"solver_seconds":     round2(solverSecs),
-		"samples":            samples,
+		"samples":            nonNil(samples),
 		"unreachable_returns": unreachable,
 		"slowest_obligations": func() []string {
 			sort.Slice(slow, func(i, j int) bool { return slow[i].secs > slow[j].secs })
@@ -486,4 +486,11 @@ func runOverlayTest(repo, testFile, run string) (string, bool) {
 	cmd.Env = append(os.Environ(), "GOFLAGS=-mod=mod", "GOPROXY=off", "GOSUMDB=off", "GOTOOLCHAIN=local")
 	out, err := cmd.CombinedOutput()
 	return string(out), err != nil && strings.Contains(string(out), "FAIL")
+}
+
+func nonNil(x []any) []any {
+	if x == nil {
+		return []any{}
+	}
+	return x
 }
